@@ -48,11 +48,17 @@ def make_scenario(case):
             b.setdefault("stdout", "out-%d\n" % i)
         if b:
             beh[ids[i]] = b
-    for i in case.get("cached") or []:
+    cached = case.get("cached") or {}
+    if isinstance(cached, list):
+        cached = {str(i): None for i in cached}
+    for k, commit in cached.items():
+        i = int(k)
         ts = CACHE_TS + i
-        rows.append([ids[i], ts, None, 0])
+        rows.append([ids[i], ts, commit, 0])
         pre_tree[os.path.join("cond-out", pkgs[i], "t%d.task.%d" % (i, ts), "old")] = "cached\n"
     argv = ["run", ids[0]]
+    if case.get("at_least"):
+        argv += ["--at-least", case["at_least"]]
     if case.get("jobs", 1) != 1 or case.get("force_j"):
         argv += ["-j", str(case.get("jobs", 1))]
     if case.get("again"):
@@ -64,6 +70,9 @@ def make_scenario(case):
         "index_rows": rows if rows or case.get("empty_index") else None,
         "unrelated": bool(case.get("unrelated")), "case": case,
     }
+    if case.get("git"):
+        # two commits c1 <- c2 (HEAD)
+        scn["git"] = {"commits": {"c1" * 20: [], "c2" * 20: ["c1" * 20]}, "head": "c2" * 20, "is_repo": True}
     return scn
 
 
@@ -161,9 +170,24 @@ def summarize(obs):
     return s
 
 
+def effective_cached(case):
+    """Nodes whose existing version satisfies the invocation (reference for the 2-commit fake repository)."""
+    cached = case.get("cached") or {}
+    if isinstance(cached, list):
+        cached = {str(i): None for i in cached}
+    out = set()
+    for k, commit in cached.items():
+        if case.get("at_least"):
+            # re-run iff no commit or strict ancestor of the requested commit (c1 < c2)
+            if commit is None or (commit != case["at_least"] and commit == "c1" * 20):
+                continue
+        out.add(int(k))
+    return out
+
+
 def expected(case):
     g = [tuple(d) for d in case["g"]]
-    cached = set(case.get("cached") or [])
+    cached = effective_cached(case)
     need = ref.needed_set(g, cached, bool(case.get("again")))
     fails = {int(k) for k in (case.get("fails") or {})}
     oc = ref.outcomes(g, need, fails)
@@ -463,3 +487,61 @@ def replay_case(artefact, monitors):
     for mon in monitors:
         got.extend(mon(s, obs))
     return got
+
+
+# ------------------------------------------------------------------------------------------ case generators
+def kind_assignments(g, mode):
+    n = len(g)
+    import itertools
+    if mode == "all4":
+        for ks in itertools.product(("cmd", "exp", "group", "combine"), repeat=n):
+            yield list(ks)
+    elif mode == "proc":
+        for ks in itertools.product(("cmd", "exp"), repeat=n):
+            yield list(ks)
+    elif mode == "basic":
+        yield ["cmd"] * n
+        yield ["exp"] * n
+        if n >= 2:
+            yield ["combine"] + ["exp"] * (n - 1)
+            yield ["group"] + ["cmd"] * (n - 1)
+        if n >= 3:
+            for mid in range(1, n):
+                if g[mid]:
+                    for k in ("group", "combine"):
+                        ks = ["cmd", "exp"] * n
+                        ks = ks[:n]
+                        ks[mid] = k
+                        yield ks
+    else:
+        raise ValueError(mode)
+
+
+def par_assignments(kinds, jobs, mode):
+    import itertools
+    n = len(kinds)
+    proc = [i for i in range(n) if kinds[i] in ("cmd", "exp")]
+    if mode == "all":
+        for bits in itertools.product((False, True), repeat=len(proc)):
+            pars = [False] * n
+            for i, b in zip(proc, bits):
+                pars[i] = b
+            yield pars
+    elif mode == "uniform":
+        yield [False] * n
+        if proc:
+            yield [i in proc for i in range(n)]
+    elif mode == "par":
+        yield [i in proc for i in range(n)]
+
+
+def graphs_upto(ns, orders=True, shared_only_from=None):
+    for n in ns:
+        for shape in graphs.dag_shapes(n):
+            if shared_only_from is not None and n >= shared_only_from and not graphs.has_shared_dep(shape):
+                continue
+            if orders:
+                for g in graphs.listing_orders(shape):
+                    yield [list(d) for d in g]
+            else:
+                yield [list(d) for d in shape]
